@@ -607,7 +607,8 @@ impl<'a> Gen<'a> {
 
     fn gen_loop(&mut self, body: usize) -> usize {
         let small = matches!(self.kinds[body], Kind::Atom | Kind::Sigma);
-        let big = small && self.rng.chance(1, 12);
+        // the small profile (bounded-progress restatement of termination in C19) never uses large bounds
+        let big = small && self.prof != Profile::Small && self.rng.chance(1, 12);
         let maxb: u64 = match self.prof {
             Profile::Small => 3,
             _ => 4,
